@@ -402,3 +402,128 @@ def exc_kind(e: BaseException) -> str:
     if isinstance(e, NotEnougData):
         return "NotEnoughData"
     return type(e).__name__
+
+
+# --------------------------------------------------------------------------------------------------------------
+# running library calls that may not terminate in reasonable time (C18 is about exactly that): worker processes
+# with a per-item watchdog
+# --------------------------------------------------------------------------------------------------------------
+class TimedOut:
+    """Result placeholder for an item whose evaluation was killed by the watchdog."""
+
+    def __init__(self, seconds: float):
+        self.seconds = seconds
+
+
+def guarded_map(fn: t.Callable[[t.Any], t.Any], items: t.Sequence[t.Any], per_item: float = 4.0, nproc: int = 0, max_timeouts: int = 24) -> t.List[t.Any]:
+    """[fn(x) for x in items] in forked workers; an item that takes longer than per_item seconds is abandoned
+    (its worker is killed and replaced) and yields a TimedOut.  After max_timeouts such items the evaluation stops and
+    the remaining items yield TimedOut(-2)."""
+    import multiprocessing as mp
+    from multiprocessing.connection import wait
+
+    n = len(items)
+    if n == 0:
+        return []
+    nproc = nproc or min(NCPU, max(1, n // 200))
+    ctx = mp.get_context("fork")
+    results: t.List[t.Any] = [None] * n
+    cur = ctx.Array("q", [-1] * nproc, lock=False)      # index being evaluated by worker w
+    since = ctx.Array("d", [0.0] * nproc, lock=False)
+
+    def work(w: int, todo: t.List[int], conn: t.Any) -> None:
+        batch = []
+        for j in todo:
+            cur[w] = j
+            since[w] = time.time()
+            try:
+                r = fn(items[j])
+            except BaseException as ex:  # noqa: BLE001
+                r = ("__exc__", type(ex).__name__, str(ex)[:200])
+            batch.append((j, r))
+            if len(batch) >= 50:
+                conn.send(batch)
+                batch = []
+        cur[w] = -2
+        conn.send(batch + [("done", w)])
+        conn.close()
+
+    todo: t.List[t.List[int]] = [list(range(w, n, nproc)) for w in range(nproc)]
+    procs: t.List[t.Any] = [None] * nproc
+    conns: t.List[t.Any] = [None] * nproc
+
+    def start(w: int) -> None:
+        r, s_ = ctx.Pipe(duplex=False)
+        p = ctx.Process(target=work, args=(w, todo[w], s_), daemon=True)
+        cur[w] = -1
+        since[w] = time.time()
+        p.start()
+        s_.close()
+        procs[w], conns[w] = p, r
+
+    for w in range(nproc):
+        start(w)
+    live = set(range(nproc))
+    ntimeouts = 0
+    while live:
+        ready = wait([conns[w] for w in live], timeout=0.5)
+        for c in ready:
+            w = conns.index(c)
+            try:
+                batch = c.recv()
+            except (EOFError, OSError):
+                batch = None
+            if batch is None:      # worker died without saying done
+                j = cur[w]
+                if j >= 0 and results[j] is None:
+                    results[j] = TimedOut(-1.0)
+                todo[w] = [k for k in todo[w] if results[k] is None]
+                if todo[w]:
+                    start(w)
+                else:
+                    live.discard(w)
+                continue
+            for j, r in batch:
+                if j == "done":
+                    live.discard(w)
+                else:
+                    results[j] = r
+        now = time.time()
+        for w in list(live):
+            j = cur[w]
+            if j >= 0 and now - since[w] > per_item:
+                procs[w].kill()
+                procs[w].join()
+                conns[w].close()
+                results[j] = TimedOut(now - since[w])
+                ntimeouts += 1
+                todo[w] = [k for k in todo[w] if results[k] is None]
+                if ntimeouts > max_timeouts or not todo[w]:
+                    live.discard(w)
+                else:
+                    start(w)
+        if ntimeouts > max_timeouts:
+            for w in list(live):
+                procs[w].kill()
+                procs[w].join()
+            live.clear()
+    for j in range(n):
+        if results[j] is None:
+            results[j] = TimedOut(-2.0 if ntimeouts > max_timeouts else -1.0)
+    return results
+
+
+def guarded_events(rep: "Report", fn: t.Callable[[t.Any], t.Any], items: t.Sequence[t.Any], what: str, per_item: float = 4.0) -> t.List[t.Any]:
+    """Events fn(item) for a trace specification.  A call that does not return within per_item seconds is not an event
+    of this property's trace; it is recorded as a violation attributed to C18 (parsing cost)."""
+    out = []
+    for item, r in zip(items, guarded_map(fn, items, per_item=per_item)):
+        if isinstance(r, TimedOut) and r.seconds == -2.0:
+            rep.violation(f"evaluation-abandoned/{what}", f"too many calls of {what} did not return in time; the remaining inputs were not evaluated", {"first_unevaluated": str(item)[:500]}, prop="C18")
+        elif isinstance(r, TimedOut):
+            rep.violation(f"call-did-not-return/{what}", f"{what} did not return within {per_item} s for {str(item)[:200]!r}", {"item": str(item)[:2000]}, prop="C18")
+        elif isinstance(r, tuple) and len(r) == 3 and r[0] == "__exc__":
+            raise MachineryError(f"driver failed on {str(item)[:100]!r}: {r[1]}: {r[2]}")
+        else:
+            out.append(r)
+    return out
